@@ -45,7 +45,8 @@ _LOOP = {
     "C05": (["Redress.Props.C05", "Redress.Props.C05Sig"], ["Redress/Audit/C05.lean", "Redress/Audit/C05Sig.lean"]),
     "C08": (["Redress.Props.C08"], ["Redress/Audit/C08.lean"]),
     "C09": (["Redress.Props.C09"], ["Redress/Audit/C09.lean"]),
-    "C11": (["Redress.Props.C11", "Redress.Props.C11NR"], ["Redress/Audit/C11.lean", "Redress/Audit/C11NR.lean"]),
+    "C11": (["Redress.Props.C11", "Redress.Props.C11NR", "Redress.Props.C11H"],
+            ["Redress/Audit/C11.lean", "Redress/Audit/C11NR.lean", "Redress/Audit/C11H.lean"]),
     "C12": (["Redress.Props.C12"], ["Redress/Audit/C12.lean"]),
     "C13": (["Redress.Props.C13"], ["Redress/Audit/C13.lean"]),
     "C14": (["Redress.Props.C14"], ["Redress/Audit/C14.lean"]),
